@@ -34,6 +34,17 @@ SINGLE_DEFECTS = ["unannotated", "unannotated_opt", "other_format", "required", 
 FIELD_NAMES = ["request_id", "idempotency_key", "client_token", "trace_id", "op_id", "dedup_id", "nonce", "req_uuid",
                "attempt_id", "batch_id", "txn_id", "lease_id"]
 STREAMING = {"unary": (False, False), "server": (False, True), "client": (True, False), "bidi": (True, True)}
+# where the two services live: service -> sub-package of the API's versioned package ("" = the package itself).  The
+# messages Thing/Meta/Inner/Color always live in a file of the API package itself; request/response messages live next to
+# their service.  A service in a sub-package is rendered by the generator with `api` = that sub-package's view of the API.
+LAYOUTS = {
+    "flat":      {"Ids": "", "Aux": ""},
+    "allsub":    {"Ids": "services", "Aux": "services"},          # every service in ONE sub-package, none in the package itself
+    "mixed":     {"Ids": "", "Aux": "services"},
+    "mixed_rev": {"Ids": "services", "Aux": ""},
+    "twosubs":   {"Ids": "services", "Aux": "admin"},             # every service in a sub-package of its own
+    "nested":    {"Ids": "services", "Aux": "services.admin"},    # a sub-package of a sub-package
+}
 
 
 def is_string_singular(kind):
@@ -41,7 +52,11 @@ def is_string_singular(kind):
     return t[0] == "string" and not t[4]
 
 
-def gen_spec(r: apigen.Rng, must_have=()):
+def pkg_of(m):
+    return m.get("pkg") or PKG
+
+
+def gen_spec(r: apigen.Rng, must_have=(), layout="flat"):
     """one API: two services, 6-8 methods, each with its own request message"""
     nm = r.randint(6, 8)
     shapes = ["unary", "unary", "unary", "unary", "server", "client", "bidi", "unary"]
@@ -78,11 +93,17 @@ def gen_spec(r: apigen.Rng, must_have=()):
                         "service": "Ids" if (i % 4 != 3) else "Aux", "streaming": st,
                         "http": r.pick(["post", "post", "get"]) if st in ("unary", "server") else "post",
                         "sig": sig, "fields": fields, "nested": r.maybe(0.7), "flavor": flavor})
-    return {"methods": methods}
+    spec = {"methods": methods}
+    if layout != "flat":
+        spec["layout"] = layout
+        for m in methods:
+            sub = LAYOUTS[layout][m["service"]]
+            m["pkg"] = PKG + ("." + sub if sub else "")
+    return spec
 
 
 def selector(m):
-    return f"{PKG}.{m['service']}.{m['name']}"
+    return f"{pkg_of(m)}.{m['service']}.{m['name']}"
 
 
 def build_files(spec):
@@ -96,7 +117,13 @@ def build_files(spec):
     meta = f.msg("Meta")
     meta.field("progress", "int32")
     services = {}
+    root, by_pkg = f, {PKG: f}
     for m in spec["methods"]:
+        f = by_pkg.get(pkg_of(m))
+        if f is None:
+            sub = pkg_of(m)[len(PKG) + 1:].split(".")
+            f = by_pkg[pkg_of(m)] = apigen.File("acme/ids/v1/" + "/".join(sub) + f"/{sub[-1]}.proto", pkg_of(m))
+            f.dep(root.name)
         rq = f.msg(m["name"] + "Request")
         rq.field("parent")
         rq.field("note")
@@ -111,7 +138,8 @@ def build_files(spec):
             out_type.field("things", "message", repeated=True, type_name=thing)
             out_type.field("next_page_token")
         elif flavor == "lro":
-            out_type, lro = ".google.longrunning.Operation", ("Thing", "Meta")
+            # operation_info names are resolved against the package of the service's file
+            out_type, lro = ".google.longrunning.Operation", (("Thing", "Meta") if f is root else (f"{PKG}.Thing", f"{PKG}.Meta"))
         # proto3-optional fields last: their synthetic oneofs must follow every real oneof (none here)
         for fd in m["fields"]:
             typ, optional, uuid4, required, repeated, other = KINDS[fd["kind"]]
@@ -131,7 +159,7 @@ def build_files(spec):
         uri = "/v1/{parent=shelves/*}/" + m["name"].lower()
         svc.method(m["name"], rq, out_type, http=(m["http"], uri), body="*" if m["http"] == "post" else None,
                    sigs=[",".join(m["sig"])] if m["sig"] else (), cs=cs, ss=ss, lro=lro)
-    return [f]
+    return list(by_pkg.values())
 
 
 # ---------------------------------------------------------------------------------------------------
@@ -207,10 +235,17 @@ def inject(r, spec, entries, which=None):
     e = r.pick(live)
     if which == "no-method":
         m = by_sel[e["selector"]]
-        e["selector"] = r.pick([f"{PKG}.{m['service']}.Nope", f"{m['service']}.{m['name']}", m["name"],
-                                f"{PKG}.{'Aux' if m['service'] == 'Ids' else 'Ids'}.{m['name']}", f"{PKG}.{m['service']}.{m['name']}.",
-                                f"{PKG}.{m['service']}.{m['name'].lower()}", "", f".{PKG}.{m['service']}.{m['name']}",
-                                "google.longrunning.Operations.GetOperation"])
+        P = pkg_of(m)
+        spellings = [f"{P}.{m['service']}.Nope", f"{m['service']}.{m['name']}", m["name"],
+                     f"{P}.{'Aux' if m['service'] == 'Ids' else 'Ids'}.{m['name']}", f"{P}.{m['service']}.{m['name']}.",
+                     f"{P}.{m['service']}.{m['name'].lower()}", "", f".{P}.{m['service']}.{m['name']}",
+                     "google.longrunning.Operations.GetOperation"]
+        if spec.get("layout"):
+            # the right service and method under the wrong package: the API package for a service of a sub-package, a
+            # sub-package for a service of the API package, a sibling/parent/child package
+            wrong = {PKG, PKG + ".services", PKG + ".admin", PKG + ".services.admin", P + ".services"} - {P}
+            spellings += sorted(f"{w}.{m['service']}.{m['name']}" for w in wrong)
+        e["selector"] = r.pick(spellings)
         return "no-method"
     if which == "streaming":
         ms = [m for m in spec["methods"] if m["streaming"] != "unary" and selector(m) not in {x["selector"] for x in entries if x is not e}]
@@ -347,6 +382,24 @@ def api_json(api):
     return out
 
 
+def render_views(api):
+    """the model's second input, read off the REAL schema objects: the views of the API that the generator hands to a
+    per-service template (`Generator._render_template`: the sub-packages first, sorted, then the services of the view's own
+    level), each as the selectors of its `all_methods`.  `all_method_settings` is a cached property of the VIEW."""
+    out = []
+    for sub in api.subpackages.values():
+        out += render_views(sub)
+    if any(s.meta.address.subpackage == api.subpackage_view for s in api.services.values()):
+        out.append(sorted(api.all_methods))
+    return out
+
+
+def model_generation(ctx, api, aj, settings_lists):
+    views = render_views(api)
+    return ask(ctx, [{"op": "c18.generate", "api": aj, "views": views,
+                      "settings": [{"selector": e["selector"], "fields": list(e.get("fields") or [])} for e in s]} for s in settings_lists])
+
+
 MSG_PATTERNS = [(re.compile(r"^Field `(.*)` was not found$", re.S), "notFound"),
                 (re.compile(r"^Field `(.*)` is not of type string\.$", re.S), "notString"),
                 (re.compile(r"^Field `(.*)` is a required field\.$", re.S), "isRequired"),
@@ -438,7 +491,12 @@ def t2(ctx, api, aj, spec, lists, label):
 def oracle_generation(ctx, want, viol, ok, errs, settings, payload):
     """generation fails unless every condition holds and no selector repeats; the message names the offenders"""
     if want and not ok:
-        ctx.fail("rejected-valid", f"valid settings rejected: {errs}", payload)
+        key = "rejected-valid"
+        known_sels = {selector(m) for m in payload["spec"]["methods"]}
+        if payload["spec"].get("layout") and errs and all(v == {"kind": "methodNotFound"} for v in errs.values()) and set(errs) <= known_sels:
+            # every complaint is "Method was not found." about a method that the API has (services in sub-packages)
+            key = "rejected-valid:method-of-another-package-view-not-found"
+        ctx.fail(key, f"valid settings rejected: {errs}", payload)
     if not want and ok:
         kinds = sorted(set(viol))
         ctx.fail("accepted-invalid:" + "+".join(kinds), f"settings with violation(s) {kinds} were accepted", payload)
@@ -595,7 +653,7 @@ def emitted_feature_tests(ctx, root, spec, settings, payload):
     INFORMATIONAL: results go to counters/notes in the evidence; whether the emitted tests pass is C13's subject."""
     import glob, subprocess
     by_sel = {selector(m): m for m in spec["methods"]}
-    for tf in sorted(glob.glob(os.path.join(root, "tests", "unit", "gapic", "*", "test_*.py"))):
+    for tf in sorted(glob.glob(os.path.join(root, "tests", "unit", "gapic", "**", "test_*.py"), recursive=True)):
         src = open(tf).read()
         names = []
         for n in ast.parse(src).body:
@@ -630,7 +688,7 @@ def emitted_feature_tests(ctx, root, spec, settings, payload):
 ALL_PATHS = ("sync", "asyncio", "rest", "rest_asyncio")
 
 
-def t3(ctx, r, spec, settings, klass, script=None, paths=ALL_PATHS, run_tests=False):
+def t3(ctx, r, spec, settings, klass, script=None, paths=ALL_PATHS, run_tests=False, calls=True):
     payload = {"spec": spec, "settings": settings, "class": klass}
     files, req, ypath = make_request(spec, settings)
     root = None
@@ -638,7 +696,7 @@ def t3(ctx, r, spec, settings, klass, script=None, paths=ALL_PATHS, run_tests=Fa
         api, _ = genrun.build_api(req)
         aj = api_json(api)
         want, viol = statement_ok(spec, settings)
-        mo = ask(ctx, [{"op": "c18.validate", "api": aj, "settings": [{"selector": e["selector"], "fields": list(e.get("fields") or [])} for e in settings]}])[0]
+        mo = model_generation(ctx, api, aj, [settings])[0]
         try:
             with warnings.catch_warnings():
                 warnings.simplefilter("ignore")
@@ -654,11 +712,12 @@ def t3(ctx, r, spec, settings, klass, script=None, paths=ALL_PATHS, run_tests=Fa
         ctx.case({"settings": settings, "class": klass, "generation": "ok" if ok else etype},
                  distinct_key=["t3", json.dumps(spec, sort_keys=True), json.dumps(settings, sort_keys=True)])
         ctx.count("generation_outcome", ("accepted" if ok else "MethodSettingsError") + "/" + klass.split(":")[0])
+        ctx.count("generation_layout", spec.get("layout", "flat") + ("/accepted" if ok else "/rejected"))
         ctx.traces += 1
         if mo["accepted"] != ok or model_errors(mo) != errs:
             ctx.disagree("T3:c18.generation_outcome", f"model accepted={mo['accepted']} errors={model_errors(mo)} vs generator accepted={ok} errors={errs}", payload)
         oracle_generation(ctx, want, viol, ok, errs, settings, payload)
-        if not ok or not want:
+        if not ok or not want or not calls:
             return
         # ------------------------------------------------------------------ call time
         root = genrun.materialise(res)
@@ -673,7 +732,8 @@ def t3(ctx, r, spec, settings, klass, script=None, paths=ALL_PATHS, run_tests=Fa
         model_settings = [{"selector": e["selector"], "fields": list(e.get("fields") or [])} for e in settings]
         svc_loc = {}
         for sname in {m["service"] for m in spec["methods"]}:
-            svc_loc[sname] = rpc.py_locations(api, api.services[f"{PKG}.{sname}"])
+            spkg = [pkg_of(m) for m in spec["methods"] if m["service"] == sname][0]
+            svc_loc[sname] = rpc.py_locations(api, api.services[f"{spkg}.{sname}"])
             smod = svc_loc[sname]["service_module"]
             svc_loc[sname]["rest_asyncio"] = f"{smod}.transports.rest_asyncio:Async{sname}RestTransport"
         REST_PATHS = ("rest", "rest_asyncio")
@@ -682,10 +742,10 @@ def t3(ctx, r, spec, settings, klass, script=None, paths=ALL_PATHS, run_tests=Fa
             toks = call.get("tokens") or []
             if not toks:
                 return None, None
-            out_full = f"{PKG}.{mm['name']}Response"
+            out_full = f"{pkg_of(mm)}.{mm['name']}Response"
             g = [{"replies": [codec.encode_b64(out_full, {"next_page_token": t})]} for t in toks] + [{"replies": [codec.encode_b64(out_full, {})]}]
             h = [{"status": 200, "body": json.dumps({"nextPageToken": t})} for t in toks] + [{"status": 200, "body": "{}"}]
-            return {f"/{PKG}.{mm['service']}/{mm['name']}": g}, h
+            return {f"/{pkg_of(mm)}.{mm['service']}/{mm['name']}": g}, h
 
         # one session per (service, path)
         ops, index = [], []
@@ -762,7 +822,7 @@ def t3(ctx, r, spec, settings, klass, script=None, paths=ALL_PATHS, run_tests=Fa
                 if len(res_["server"]) != npages:
                     ctx.fail("server-calls", f"{path} {mm['name']}: server saw {len(res_['server'])} requests, expected {npages}", p2)
                     continue
-                full = f"{PKG}.{mm['name']}Request"
+                full = f"{pkg_of(mm)}.{mm['name']}Request"
                 caller = {} if call["mode"] == "none" else script["objects"][call["obj"]]["values"]
                 reuse_of = first_populated.get(call["obj"]) if call["mode"] == "inst" else None
                 for page, rec in enumerate(res_["server"]):
@@ -906,8 +966,12 @@ def run(ctx):
                 "2-3 violations | shaped: long_running-only/streaming entries first and fields in a later entry, the same field for many methods, every "
                 "unary flavour at once; calls (literal values, two clients per session): every listed field unset/empty/set x request instance/dict/"
                 "flattened kwargs/no request x {sync, asyncio, REST, rest_asyncio}, repeated calls, the same dict twice, the same instance twice through "
-                "two clients, paginated calls with 1-2 follow-up pages; the emitted unit tests of the feature. distinct = (settings list) for T2/T3-"
-                "generation, (settings, path, call, caller object) for calls; every generated case is non-trivial")
+                "two clients, paginated calls with 1-2 follow-up pages; the emitted unit tests of the feature. The same APIs with the services in "
+                "proto SUB-PACKAGES of the API package (all services in one sub-package and only messages in the API package; one service in the "
+                "package and one in a sub-package, either way round; each service in a sub-package of its own; a sub-package of a sub-package), "
+                "generated through the real Generator with autogen-snippets=false: per service a valid list, every single violation, a duplicate, "
+                "lists spanning both services, the wrong-package spellings of a selector; call time through the emitted sub-package clients. "
+                "distinct = (settings list) for T2/T3-generation, (settings, path, call, caller object) for calls; every generated case is non-trivial")
     ctx.assume("string members of a real oneof, request messages from another proto package (no proto-plus wrapper), field names that are Python "
                "reserved words are outside the quantifier's declaration list and are not generated")
     ctx.assume("the emitted unit tests of the feature are run for information only (counters/notes): a field listed twice in one entry makes them "
@@ -918,6 +982,8 @@ def run(ctx):
                "auto-populated are left out of the model comparison there")
     ctx.assume("uuid.uuid4 is external: the model takes it as an injective stream of non-empty strings; the oracle checks the RFC-4122 v4 shape "
                "and pairwise distinctness of every id the servers saw")
+    ctx.assume("APIs with services in sub-packages are generated with autogen-snippets=false (snippet generation raises KeyError for such services: "
+               "C14/C01's subject); request and response messages live in the file of their service")
     run_corpus(ctx)
     r = ctx.rng("apis")
     napis = ctx.n(4, 16)
@@ -945,6 +1011,61 @@ def run(ctx):
         for n_, (settings, klass) in enumerate(pick):
             t3(ctx, r, spec, settings, klass, run_tests=(n_ == 0 or not ctx.quick) and klass.startswith(("valid", "shape")))
             ctx.count("stream", "generated")
+    run_layouts(ctx, ctx.rng("layouts"), ctx.n(1, 3), ctx.n(10, 30), ctx.n(1, 2))
+
+
+def layout_lists(r, spec, nrandom):
+    """settings lists for an API whose services live in sub-packages: per SERVICE a valid list naming only that service, every
+    single violation (injected into an entry of that service) and a duplicate; valid lists spanning both services; random ones"""
+    by_sel = {selector(m): m for m in spec["methods"]}
+    out = []
+    for sname in ("Ids", "Aux"):
+        mine = [m for m in spec["methods"] if m["service"] == sname]
+        unary = [m for m in mine if m["streaming"] == "unary"]
+        if not unary:
+            continue
+
+        def valid_list():
+            ms = unary[:]
+            r.shuffle(ms)
+            return [good_entry(r, m, allow_empty=False) for m in ms[:r.randint(1, 2)]]
+        out.append((valid_list(), f"valid:{sname}-only"))
+        for which in VIOLATIONS:
+            s = valid_list()
+            sub = {"methods": mine, "layout": spec.get("layout")}        # the injection stays inside this service
+            out.append((s, f"violation:{sname}:" + inject(r, sub, s, which)))
+        s = valid_list()
+        s.insert(r.randint(0, len(s)), copy.deepcopy(r.pick(s)))
+        out.append((s, f"duplicate:{sname}"))
+    both = []
+    for sname in ("Ids", "Aux"):
+        unary = [m for m in spec["methods"] if m["service"] == sname and m["streaming"] == "unary"]
+        if unary:
+            both.append(good_entry(r, r.pick(unary), allow_empty=False))
+    out.append((both, "valid:both-services"))
+    out.append(([{"selector": e["selector"], "fields": []} for e in both], "valid:both-services-no-fields"))
+    out += [gen_settings(r, spec) for _ in range(nrandom)]
+    return out
+
+
+def run_layouts(ctx, r, napis, nrandom, ncalls, layouts=None):
+    """the API's services live in sub-packages of the API package (all of them / one of two / each in its own / nested):
+    generation through the real Generator for every list, call time for the first accepted valid lists"""
+    for layout in (layouts or [k for k in LAYOUTS if k != "flat"]):
+        for a in range(napis):
+            spec = gen_spec(r, must_have=SINGLE_DEFECTS if a % 2 == 0 else SINGLE_DEFECTS[::-1], layout=layout)
+            files = build_files(spec)
+            api, _ = genrun.build_api(apigen.request(files, "transport=grpc+rest,autogen-snippets=false"))
+            lists = layout_lists(r, spec, nrandom)
+            t2(ctx, api, api_json(api), spec, lists, f"{layout}{a}")
+            done = 0
+            for settings, klass in lists:
+                before = ctx.distribution.get("generation_layout", {}).get(layout + "/accepted", 0)
+                go = klass.startswith("valid") and done < ncalls
+                t3(ctx, r, spec, settings, klass, calls=go, run_tests=go and not ctx.quick)
+                if go and ctx.distribution.get("generation_layout", {}).get(layout + "/accepted", 0) > before:
+                    done += 1
+                ctx.count("stream", "generated-layout:" + layout)
 
 
 def search(ctx):
@@ -958,6 +1079,7 @@ def search(ctx):
         t2(ctx, api, aj, spec, lists, f"search{a}")
         for settings, klass in [x for x in lists if x[1] == "valid"][:3]:
             t3(ctx, r, spec, settings, klass)
+    run_layouts(ctx, ctx.rng("search-layouts"), 3, 40, 1)
 
 
 def replay(ctx, payload):
@@ -979,20 +1101,25 @@ def replay(ctx, payload):
 CLAIM = dict(
     text=('Lean 4 proof on a model of API.enforce_valid_method_settings that a method-settings list is accepted iff no selector repeats and every '
           'entry names an existing method and, when it lists fields, a unary method whose listed fields are top-level, non-REQUIRED, UUID4-annotated '
-          'singular strings (with the exact error reported per selector, completeness of the violation list, duplicates reported as such), and on a '
+          'singular strings (with the exact error reported per selector, completeness of the violation list, duplicates reported as such), that '
+          'generation — one such validation per sub-package view of the API that renders a service — aborts on every list the whole API rejects '
+          'wherever the services live, and on a '
           'model of the auto_populate_uuid4_fields macro, of the settings lookup by selector and of the `import uuid` gate that on the sync, asyncio, '
           'REST and rest_asyncio paths a listed field is sent with a value drawn from uuid4 during that call iff the caller left it unset '
           '(proto3-optional: not present; plain: empty; no request at all: every listed field), that a caller-provided value and all other fields are '
           'sent unchanged, that ids of different populating calls differ, that no call can fail for a missing `import uuid` whatever the order of the '
           'entries, and that the follow-up requests of a paginated call repeat the first id. Tie: T2 real enforce_valid_method_settings vs the model '
-          'on generated settings lists (incl. reversed and shaped lists); T3 generation outcome (MethodSettingsError + YAML error map) vs the model, '
+          'on generated settings lists (incl. reversed and shaped lists); T3 generation outcome (MethodSettingsError + YAML error map) of the real '
+          'Generator vs the model, also for APIs whose services live in proto sub-packages (five layouts), '
           'the requests seen by loopback gRPC/HTTP servers across programs of calls (literal instance/dict/kwargs/no request, two clients, the same '
           'object twice, paginated and LRO methods) on four paths vs the model, the statement order and import gate of the emitted client modules, '
           '(the emitted unit tests of the feature are run for information only); a model-independent oracle restating AIP-4235.'),
     technique='Lean 4 theorems (loop invariants over the settings list and over the macro loop) + differential T2/T3 against the real validation and the emitted clients',
     design='7.18',
-    note=('One departure of the code from the statement is proved as a _counterexample theorem and recorded as a known finding: a request INSTANCE '
-          "that is passed twice re-sends the first id because the emitted code populates the caller's object in place. The emitted unit tests of the "
+    note=('Two departures of the code from the statement are proved as _counterexample theorems and recorded as known findings: a request INSTANCE '
+          "that is passed twice re-sends the first id because the emitted code populates the caller's object in place; a VALID settings entry is "
+          'rejected ("Method was not found.") when another service of the API lives in a proto sub-package, because that sub-package\'s view of the '
+          'API re-validates the whole list against its own methods. The emitted unit tests of the '
           'feature are run for information only (a field listed twice in one entry makes them fail; the library is right: C13 excluded shape). (A `repeated string` '
           'UUID4 field passing the validation was repaired in /repo by 239cd3d; corpus entry = regression input, `repeated_string_rejected` = '
           "regression theorem.) uuid.uuid4 is an external parameter (injective, non-empty). macro_on_all_paths is structural on the model's "
